@@ -110,7 +110,8 @@ theorem rc_refines (dna : Bool) (r r' : Row) (h : RowWF r) (hr : rowRc dna r = .
 example : (rowRc true (rowOfString "-AC--G".toList)).toOption.map gapped = some "C--GT-".toList := by decide
 
 /-- **History theorem** (`aln_refines`): for every alignment with well-formed rows and every finite
-sequence of slice / int / rc / take_seqs / take_positions (both polarities) / to_rna / to_dna / `+` operations, if the
+sequence of slice / int / rc / take_seqs / take_positions (both polarities) / to_rna / to_dna / `+` /
+get_degapped_relative_to / sample with given locations and motif length / to_type round-trip operations, if the
 annotatable class completes the history, the rows it then shows are exactly the rows obtained by
 running the same history on the plain gapped strings (which is what the dense class does), and all
 rows are still well formed.  By induction over the operation list. -/
@@ -136,7 +137,11 @@ theorem array_annotatable_agree_history (ops : List AOp) (dna : Bool) (d : AlnD)
   have := (run_refines ops dna (ofStrings d) hops hwf a' dna' h).2
   rwa [array_annotatable_agree] at this
 
-example : (∀ op ∈ [AOp.slice (some 0) (some 9), AOp.int (-1), AOp.rc, AOp.takePositions [2, 0] true], OpOK op) := by simp [OpOK]
+example : (∀ op ∈ [AOp.slice (some 0) (some 9), AOp.int (-1), AOp.rc, AOp.takePositions [2, 0] true, AOp.degap "s0",
+    AOp.sample [2, 0, 2] 3, AOp.reparse], OpOK op) := by simp [OpOK]
+example : (runA true (ofStrings [("s0", "G-A-TT".toList), ("s1", "A-CNT-".toList)])
+      [.degap "s0", .sample [1, 0] 2]).toOption.map (fun r => showA r.1)
+    = some [("s0", "TTGA".toList), ("s1", "T-AC".toList)] := by decide
 
 /-- **Through the real view arithmetic (C01)**: keep each row's data as the C01 sequence model
 (parent string + slice record `start/stop/step`, complemented on display when reversed) instead of
